@@ -2,22 +2,21 @@
 From Coq Require Import List Arith Lia Bool.
 From WakeC Require Import WakeModel WakeInv.
 
-Lemma release_closed md s : closed (release md s) = closed s.
-Proof. unfold release, set_pw, set_owed. destruct (is_os md); reflexivity. Qed.
-
 Ltac flush_tac s :=
   intros K0 K1; start';
   [ left; rewrite flush_closed; rewrite ?release_closed; auto | ];
-  unfold flush, release, is_os, set_pw, set_owed; simp_proj; (match goal with H : closed _ = false |- _ => rewrite H end);
-  destruct (q s =? 0) eqn:Eq0;
-  [ unfold resetRead, pmod, kctl, set_wadded; go2
-  | unfold ksend, set_q; simp_proj;
-    destruct (q s <=? room s) eqn:Eqr;
-    [ apply Nat.leb_le in Eqr; rewrite (Nat.min_l _ _ Eqr); rewrite Nat.sub_diag; cbn [Nat.eqb];
-      unfold resetRead, pmod, kctl, set_wadded; go2
-    | apply Nat.leb_gt in Eqr; rewrite (Nat.min_r (q s) (room s)) by lia;
-      replace (q s - room s =? 0) with false by (symmetry; apply Nat.eqb_neq; lia);
-      go2 ] ].
+  destruct (prd s) eqn:Eprd;
+  ( unfold flush, release, is_os, set_pw, set_owed; rewrite ?Eprd; cbn [andb negb]; simp_proj;
+    (match goal with H : closed _ = false |- _ => rewrite H end);
+    destruct (q s =? 0) eqn:Eq0;
+    [ unfold resetRead, pmod, kctl, set_wadded; go2
+    | unfold ksend, set_q; simp_proj;
+      destruct (q s <=? room s) eqn:Eqr;
+      [ apply Nat.leb_le in Eqr; rewrite (Nat.min_l _ _ Eqr); rewrite Nat.sub_diag; cbn [Nat.eqb];
+        unfold resetRead, pmod, kctl, set_wadded; go2
+      | apply Nat.leb_gt in Eqr; rewrite (Nat.min_r (q s) (room s)) by lia;
+        replace (q s - room s =? 0) with false by (symmetry; apply Nat.eqb_neq; lia);
+        go2 ] ] ).
 
 Lemma inv_flush_LT s : pw s = WOut -> dial s = false -> Inv LT s -> Inv LT (flush LT (release LT s)).
 Proof. flush_tac s. Qed.
